@@ -441,11 +441,13 @@ PROPS = {
         witnesses=["BluetoeModel.Bootloader.flash_layout_unrestricted_witness"],
         run=run_c39,
         level="proof-partial",
-        technique="Lean 4 invariant proof over all histories, page sizes and region lists of a model of bootloader::details::controller/flash_buffer + differential correspondence with the real service (effect trace) + white-list monitor and ASan",
-        level_text="Proved for every page size, region list and history (with fixes boot-01, boot-02): every start_flash / read_mem / public_checksum32 call touches only memory entirely inside one white-listed region (flash_effects_inside_regions) and read_address never leaves the written control point value (control_point_reads_le_size). The Read procedure's public_read_mem calls are proved inside the white list for histories without a data write in flash mode while a Read procedure is current (effects_inside_regions_partial); with such a write they are not (effects_inside_regions_witness, known finding C39:publicRead-outside-white-list:read-procedure-while-flashing). The clause 'data is flashed at the client's addresses with the announced checksum chain' is covered by the correspondence (digest of every flashed page, crc in the notifications) but not by a theorem.",
-        level_note="Trusted: Lean kernel + propext/Quot.sound/Classical.choice; model = code as far as the differential check samples it (3 configurations, one connection, MTU 23, 64 bit uintptr_t, mock handler whose public_read_mem never fails); handler end_flash may be called at any time.",
+        technique="Lean 4 invariant / simulation proofs over all histories, page sizes and region lists of a model of bootloader::details::controller/flash_buffer (white-list invariant; refinement of the two page buffers to a byte-wise flash specification) + differential correspondence with the real service (effect trace, page digests, checksums) + white-list monitor, layout monitor and ASan",
+        level_text="Proved for every page size, region list and history (code with fixes boot-01, boot-02, boot-03): every start_flash / read_mem / public_checksum32 / public_read_mem call touches only memory entirely inside one white-listed region (effects_inside_regions, full strength) and read_address never leaves the written control point value (control_point_reads_le_size). Third clause: for every legal history the start_flash calls of every operation are exactly those of the flash specification - the received bytes at start address + offset, page by page, in order, the rest of each page as read back (flash_layout); in the specification nothing is dropped or duplicated and the checksum is crc(start address) chained over exactly the bytes taken (spec_stream); a data write answered with success is taken completely, one answered 0x83 up to a page end (data_taken); the checksums in the Start Flash and Flush responses are that chain (reported_checksum_start_flash/_flush). Legal = the handler calls end_flash only for an outstanding start_flash, and an accepted Start Flash arrives only when no page flash is outstanding and no progress notification is queued. Without the second precondition the clause is false (flash_layout_unrestricted_witness, known finding C39:flashed-page-mismatch:restart-while-page-flash-outstanding).",
+        level_note="Trusted: Lean kernel + propext/Quot.sound/Classical.choice; model = code as far as the differential check samples it (3 configurations, one connection, MTU 23, 64 bit uintptr_t, mock handler whose public_read_mem never fails and whose memory does not change while flashing); the checksum enters the proofs only through the chaining law checksum32(p2, n2, checksum32(p1, n1, c)) = checksum32(p1 ++ p2, c) (crcAdd_append); not covered by a theorem: the payload of the progress notification, the checksum of the Read response.",
         design_ref="§5 C39",
         assumptions=["memory_region bounds are uintptr_t values, page size > 0 (Cfg.WF, guaranteed by the C++ types)",
-                     "user handler performs exactly the accesses it is asked for (mock records them)"],
+                     "user handler performs exactly the accesses it is asked for (mock records them)",
+                     "layout clause: the handler calls end_flash once per start_flash call, after it (documented contract)",
+                     "layout clause: the client does not restart flashing (Start Flash) while a page flash is outstanding or a progress notification is queued"],
     ),
 }
